@@ -302,12 +302,12 @@ func c13Run(c Case) (Result, error) {
 
 	var coqOps []string
 	digests := 0
-	for _, op := range in.Ops {
+	for i, op := range in.Ops {
 		var term, out string
 		p, msg := catch(func() {
 			switch op.Op {
 			case "write":
-				_, _ = h.Write(unhx(op.Data))
+				_, _ = h.Write(misalign(unhx(op.Data), i))
 				term = "OWrite " + cqs(op.Data)
 			case "sum":
 				out = hx(h.SumHash())
@@ -316,7 +316,7 @@ func c13Run(c Case) (Result, error) {
 				h.Reset()
 				term = "OReset"
 			case "compute":
-				out = hx(h.ComputeHash(unhx(op.Data)))
+				out = hx(h.ComputeHash(misalign(unhx(op.Data), i+3)))
 				term = fmt.Sprintf("OCompute %s %s", cqs(op.Data), cqs(out))
 			}
 		})
@@ -346,4 +346,14 @@ func c13Run(c Case) (Result, error) {
 	}
 	return Result{Coq: fmt.Sprintf("CObj %s %s", algTerm, cqlist(coqOps)), Key: key, Nontrivial: digests > 0,
 		Obs: map[string]any{"ctor_ok": true, "ops": obs}}, nil
+}
+
+// misalign returns a copy of b that starts at an address with (addr mod 8) = k mod 8: the contents are
+// the same, only the alignment of the caller's buffer differs (the unaligned xorIn reinterprets the
+// buffer as 64-bit words)
+func misalign(b []byte, k int) []byte {
+	buf := make([]byte, len(b)+8)
+	off := k % 8
+	copy(buf[off:], b)
+	return buf[off : off+len(b)]
 }
